@@ -1691,6 +1691,29 @@ def rule_no_python_division_by_a_vanishing_root(eng, rep, rule="C07-14.no-python
     rep.require_count(rule, "divisions with Python-typed operands reachable from solve", ndiv, 5)
 
 
+# --------------------------------------------------------------------------------------------- C07-15
+def rule_solve_does_not_assert_on_its_arguments(eng, rep, rule="C07-15.solve-reports-bad-arguments-instead-of-asserting"):
+    """An `assert` on an argument inside solve is an exception path for bad input (AssertionError -- or nothing at all under python -O), where the package's own
+    convention is an input-error result with zero evaluations.  Every assert in solve whose condition reads one of solve's parameters (directly or through a local
+    defined from one) is reported."""
+    solve = eng.fn("solver.solve")
+    cfg = eng.cfg(solve)
+    params = set(solve.all_params)
+    nassert = 0
+    for node in eng.prog.own_nodes(solve):
+        if not isinstance(node, ast.Assert):
+            continue
+        nassert += 1
+        names = set(x.id for x in ast.walk(node.test) if isinstance(x, ast.Name))
+        hit = names & params
+        if hit:
+            rep.bad(rule, eng.where(solve, node), "solver.solve|assert-on-argument|%s" % sorted(hit)[0],
+                    "`%s` checks the argument `%s` with an assertion: bad input raises AssertionError out of solve instead of returning the input-error flag" % (short(node, 60), sorted(hit)[0]))
+        else:
+            rep.ok(rule, eng.where(solve, node), "assertion on internal state", nontrivial=False)
+    rep.ok(rule, eng.where(solve), "%d assert statement(s) in solve inspected" % nassert, nontrivial=bool(nassert))
+
+
 def run(eng, rep):
     rep.explain("C07: call conformance of every resolved internal call (T10); shape of the graceful input-error path in solve (T2); "
                 "guard present for each documented invalid-argument class (frozen table, matched on normalised conditions); "
@@ -1716,5 +1739,6 @@ def run(eng, rep):
     rep.guarded(rule_internal_param_updates, eng, rep)
     rep.guarded(rule_definite_assignment, eng, rep)
     rep.guarded(rule_no_python_division_by_a_vanishing_root, eng, rep)
+    rep.guarded(rule_solve_does_not_assert_on_its_arguments, eng, rep)
     from . import c20
     c20.rule_str_never_formats_none(eng, rep, rule="C07-8.printing")
